@@ -19,9 +19,10 @@ VARIABLES init, req,      \* call-time array, raw request list (any order, repea
           vals,           \* output slots, one per key
           stack,          \* frames [lo, hi, idxs (relative to lo), slot]
           pc,             \* "entry" | "run" | "done" | "panic"
-          pivots
+          pivots,
+          perm, lastq     \* ghosts for the refinement of BulkAlg: original position of each element; last rearrangement
 
-vars == <<init, req, arr, keys, vals, stack, pc, pivots>>
+vars == <<init, req, arr, keys, vals, stack, pc, pivots, perm, lastq>>
 view == <<init, req, arr, keys, vals, stack, pc>>
 
 ReqValues(n) == IF OutOfRange THEN 0..(n + 1) \cup {BIG} ELSE 0..(n - 1)
@@ -34,6 +35,7 @@ Init ==
     /\ req \in ReqLists(Len(init))
     /\ arr = init /\ keys = <<>> /\ vals = <<>> /\ stack = <<>>
     /\ pc = "entry" /\ pivots = <<>>
+    /\ perm = [x \in 0..(Len(init) - 1) |-> x] /\ lastq = [x \in 0..(Len(init) - 1) |-> x]
 
 (* sort.rs:139-143 and 206-213 (+ the repaired range check). *)
 SortDedupSeed ==
@@ -49,7 +51,7 @@ SortDedupSeed ==
           ELSE /\ vals' = [x \in DOMAIN ks |-> At(arr, 0)]
                /\ stack' = <<[lo |-> 0, hi |-> Len(arr), idxs |-> ks, slot |-> 0]>>
                /\ pc' = "run"
-    /\ UNCHANGED <<init, req, arr, pivots>>
+    /\ UNCHANGED <<init, req, arr, pivots, perm, lastq>>
 
 Top == stack[Len(stack)]
 Pop == SubSeq(stack, 1, Len(stack) - 1)
@@ -58,14 +60,14 @@ n_  == Top.hi - Top.lo
 Finish ==
     /\ pc = "run" /\ stack = <<>>
     /\ pc' = "done"
-    /\ UNCHANGED <<init, req, arr, keys, vals, stack, pivots>>
+    /\ UNCHANGED <<init, req, arr, keys, vals, stack, pivots, perm, lastq>>
 
 (* sort.rs:238-241 *)
 PopEmpty ==
     /\ pc = "run" /\ stack # <<>> /\ Len(Top.idxs) = 0
     /\ ~(DebugAssertions /\ n_ < 0)
     /\ stack' = Pop
-    /\ UNCHANGED <<init, req, arr, keys, vals, pc, pivots>>
+    /\ UNCHANGED <<init, req, arr, keys, vals, pc, pivots, perm, lastq>>
 
 (* sort.rs:235: debug_assert!(n >= indexes.len()) *)
 DebugAssertFail ==
@@ -73,7 +75,7 @@ DebugAssertFail ==
     /\ \/ n_ < Len(Top.idxs)
        \/ (n_ = 1 /\ Len(Top.idxs) > 1)
     /\ pc' = "panic"
-    /\ UNCHANGED <<init, req, arr, keys, vals, stack, pivots>>
+    /\ UNCHANGED <<init, req, arr, keys, vals, stack, pivots, perm, lastq>>
 
 NoDebugFail == ~(DebugAssertions /\ (n_ < Len(Top.idxs) \/ (n_ = 1 /\ Len(Top.idxs) > 1)))
 
@@ -82,13 +84,13 @@ LenOne ==
     /\ pc = "run" /\ stack # <<>> /\ Len(Top.idxs) > 0 /\ n_ = 1 /\ NoDebugFail
     /\ vals' = [vals EXCEPT ![Top.slot + 1] = At(arr, Top.lo)]
     /\ stack' = Pop
-    /\ UNCHANGED <<init, req, arr, keys, pc, pivots>>
+    /\ UNCHANGED <<init, req, arr, keys, pc, pivots, perm, lastq>>
 
 (* sort.rs:254: gen_range(0..0) *)
 EmptyRangePanic ==
     /\ pc = "run" /\ stack # <<>> /\ Len(Top.idxs) > 0 /\ n_ = 0 /\ NoDebugFail
     /\ pc' = "panic"
-    /\ UNCHANGED <<init, req, arr, keys, vals, stack, pivots>>
+    /\ UNCHANGED <<init, req, arr, keys, vals, stack, pivots, perm, lastq>>
 
 (* sort.rs:253-297 *)
 DrawPartitionSplit(p) ==
@@ -104,8 +106,10 @@ DrawPartitionSplit(p) ==
            right == [x \in DOMAIN rest |-> rest[x] - (k + 1)]      \* Rebase, sort.rs:290-292
        IN /\ pivots' = Append(pivots, <<n_, p>>)
           /\ IF k = PANIC
-             THEN pc' = "panic" /\ UNCHANGED <<arr, vals, stack>>
+             THEN pc' = "panic" /\ UNCHANGED <<arr, vals, stack, perm, lastq>>
              ELSE /\ arr' = r[1]
+                  /\ lastq' = MatchPerm(arr, r[1])
+                  /\ perm' = [x \in DOMAIN perm |-> perm[MatchPerm(arr, r[1])[x]]]
                   /\ vals' = IF bs[1] THEN [vals EXCEPT ![f.slot + sp + 1] = At(r[1], f.lo + k)] ELSE vals
                   \* right frame pushed first so that the left one is processed first
                   /\ stack' = Pop \o <<[lo |-> f.lo + k + 1, hi |-> f.hi, idxs |-> right, slot |-> f.slot + sp + ex],
@@ -146,7 +150,7 @@ Terminates == <>(pc \in {"done", "panic"})
 (* set of its values; sorting / de-duplicating the request is a stuttering step there.  In-range requests only.      *)
 ZeroBased(s) == [x \in 0..(Len(s) - 1) |-> s[x + 1]]
 WholeFrame == IF RangeOf(req) = {} THEN {} ELSE {[lo |-> 0, hi |-> Len(init)]}
-PP == INSTANCE BulkAlg WITH Len0 <- Len(init), W <- RangeOf(req), arr <- ZeroBased(arr),
+PP == INSTANCE BulkAlg WITH Len0 <- Len(init), W <- RangeOf(req), Arr0 <- ZeroBased(init), arr <- ZeroBased(arr),
                             frames <- IF pc = "entry" THEN WholeFrame ELSE {[lo |-> stack[x].lo, hi |-> stack[x].hi] : x \in DOMAIN stack},
                             pc <- IF pc = "entry" THEN "run" ELSE pc
 RefinesProof == PP!Spec
